@@ -56,6 +56,19 @@ def removeVertices {P T} (g : Geom P T) (idx : List Int) : Except Err (Geom P T)
       let cm := cells.map (cellKept m)
       .ok { g1 with cells := some ((keep cm cells).map (remap m)), cdata := deleteData cm g.cdata }
 
+/-- `Points.copy(mask=m)` / `CellObject.copy(mask=m)` with `cell_mask = np.all(mask[cells], axis=1)`: the vertices selected by
+    the mask, the cells all of whose vertices are selected (re-indexed by `new_id[cells]`), vertex data by the mask and cell
+    data by the cell mask.  The source is not touched (the model is a function). -/
+def maskedCopy {P T} (g : Geom P T) (m : List Bool) : Except Err (Geom P T) :=
+  if m.length != g.verts.length then .error .valueError        -- "Mask must be an array of shape (n_vertices,)"
+  else
+    let g1 : Geom P T := { g with verts := keep m g.verts, vdata := deleteData m g.vdata }
+    match g.cells with
+    | none => .ok g1
+    | some cells =>
+      let cm := cells.map (cellKept m)
+      .ok { g1 with cells := some ((keep cm cells).map (remap m)), cdata := deleteData cm g.cdata }
+
 /-- `format_length` for an array of `k` entries against `n` expected: pad with no-data,
     refuse longer arrays. -/
 def formatLength {T} (ndv : T) (n : Nat) (v : List T) : Except Err (List T) :=
